@@ -707,6 +707,17 @@ def translate(repo, spec):
                 stmts = stmts[last + 1:]
                 for p_, t_ in params:
                     env[p_] = (lean_ident(p_), t_)
+            if "start_at_src" in spec:
+                for i, s in enumerate(stmts):
+                    if ast.unparse(s) == spec["start_at_src"]:
+                        env, l2 = sym.prologue(stmts[:i], env)
+                        lets += l2
+                        stmts = stmts[i:]
+                        for p_, t_ in params:
+                            env[p_] = (lean_ident(p_), t_)
+                        break
+                else:
+                    raise Untranslatable("no statement " + spec["start_at_src"])
             if "start_at_test" in spec:
                 for i, s in enumerate(stmts):
                     if isinstance(s, ast.If) and ast.unparse(s.test) == spec["start_at_test"]:
@@ -802,6 +813,15 @@ TARGETS = [
     dict(group="Split", name="split_counts", file="hvsrpy/timeseries.py", cls="TimeSeries", func="split", check_args=["self", "window_length_in_seconds"],
          params=[("window_length_in_seconds", "num"), ("self.dt_in_seconds", "num"), ("self.n_samples", "int")],
          out=["samples_per_window", "n_windows"], out_types=["int", "int"], stop_before="start_idx", option=True),
+    # SeismicRecording3C.__init__: the stored orientation is normalised to [0, 360)
+    dict(group="Orient", name="init_orientation", file="hvsrpy/seismic_recording_3c.py", cls="SeismicRecording3C", func="__init__",
+         start_at="self.degrees_from_north", stop_before="meta", params=[("degrees_from_north", "num")], out=["self.degrees_from_north"]),
+    # readers: MiniShark header scaling, PEER orientation taken from the azimuth code of the north-most horizontal
+    dict(group="Readers", name="minishark_scale", file="hvsrpy/data_wrangler.py", func="_read_minishark", start_at_src="data /= gain", stop_before="vt",
+         params=[("data", "num"), ("gain", "num"), ("conversion", "num")], out=["data"]),
+    dict(group="Readers", name="peer_orientation", file="hvsrpy/data_wrangler.py", func="_read_peer", start_at_test="degrees_from_north is None", stop_before="npts",
+         abstract={"component_keys_abs[ns_id]": "ns_azimuth"}, consts={"degrees_from_north": None},
+         params=[("ns_azimuth", "num")], out=["degrees_from_north"]),
     # frequency-domain window rejection: the accept decision of the inner loop (None = window skipped, its masks are kept) ...
     dict(group="Fdwra", name="fdwra_keep", file="hvsrpy/window_rejection.py", func="_frequency_domain_window_rejection",
          descend=["c_iteration", "c_peak"], params=[("c_valid", "bool"), ("c_peak", "num"), ("lower_bound", "num"), ("upper_bound", "num")],
@@ -814,7 +834,7 @@ TARGETS = [
 ]
 
 
-GROUPS = ["Combine", "Azimuth", "Orient", "Windows", "Stats", "Sesame", "Fdwra", "Psd", "Nyquist", "Spatial", "Split"]
+GROUPS = ["Combine", "Azimuth", "Orient", "Windows", "Stats", "Sesame", "Fdwra", "Psd", "Nyquist", "Spatial", "Split", "Readers"]
 
 
 def emit(repo):
